@@ -15,7 +15,7 @@ NormName(n) == IF StripAt(n) = "" THEN "default" ELSE StripAt(n)
 
 (* order of the normalised names used by the bounded instance (code point order) *)
 NameOrder == <<"\"q\"", "A", "B", "a", "a@", "b", "default", "x'y", "ä b">>     \* names are case-sensitive
-Rank(n) == CHOOSE i \in 1..Len(NameOrder) : NameOrder[i] = n
+Rank(n) == IF \E i \in 1..Len(NameOrder) : NameOrder[i] = n THEN CHOOSE i \in 1..Len(NameOrder) : NameOrder[i] = n ELSE 0
 
 Files == <<"f1.klg", "f 2.klg", "q\"3.klg", "ü4.klg", "d/f1.klg">>     \* the last one: same file name, other folder
 (* each file holds one entry of i hours, so that evaluating it tells which file was read *)
